@@ -119,7 +119,7 @@ class Hang(Exception):
 
 
 class _T(object):
-    __slots__ = ("tid", "lock", "state", "wake", "target", "pending", "os_thread", "outcome", "steps")
+    __slots__ = ("tid", "lock", "state", "wake", "target", "pending", "os_thread", "outcome", "steps", "deadline")
 
     def __init__(self, tid):
         self.tid = tid
@@ -128,6 +128,7 @@ class _T(object):
         self.state = "new"        # new | ready | sleeping | joining | done
         self.wake = 0
         self.target = None        # tid joined on
+        self.deadline = None      # virtual time at which a join with a timeout gives up
         self.pending = "begin"    # name of the operation the thread is parked before
         self.os_thread = None
         self.outcome = None       # how the thread function ended
@@ -205,7 +206,9 @@ class Scheduler(object):
             return self.clock >= t.wake
         if t.state == "joining":
             o = self.threads.get(t.target)
-            return o is not None and o.state == "done"
+            if o is not None and o.state == "done":
+                return True
+            return t.deadline is not None and self.clock >= t.deadline
         return False
 
     def run_thread(self, tid):
@@ -227,6 +230,8 @@ class Scheduler(object):
 
     def next_wake(self):
         w = [t.wake for t in self.threads.values() if t.state == "sleeping" and t.wake > self.clock]
+        w += [t.deadline for t in self.threads.values()
+              if t.state == "joining" and t.deadline is not None and t.deadline > self.clock]
         return min(w) if w else None
 
     def policy(self, preempt, fuel):
@@ -318,7 +323,11 @@ class FakeThread(object):
         me.pending = "join"
         me.state = "joining"
         me.target = self._t.tid
+        # a join with a timeout gives up on the virtual clock (the component joins without one; a rewrite that
+        # adds a timeout is then schedulable: the caller goes on while the spinner is still held back)
+        me.deadline = None if timeout is None else self._s.clock + int(round(timeout * 1000))
         self._s.park(me)
+        me.deadline = None
         me.state = "ready"
 
     def is_alive(self):
@@ -836,6 +845,10 @@ def _enumeration(tier):
             for b in range(top + 1):
                 for pre in itertools.combinations(range(n), b):
                     yield auto_case(cfg, body, (), pre)
+            # the spinner is held back while the caller runs on and the clock advances: leaving the block must wait
+            # for it however long that takes
+            for a in range(0, n + 2, 2):
+                yield auto_case(cfg, body, ["M"] * a + [["T", 700]] + ["M"] * 12 + [["T", 700]] + ["M"] * 12, ())
 
 
 def _random_auto(n, rng):
